@@ -70,7 +70,7 @@ impl Check for CanonCheck {
     }
     fn budget(&self, tier: Tier) -> u64 {
         match tier {
-            Tier::Quick => 40_000,
+            Tier::Quick => 80_000,
             Tier::Thorough => 300_000,
         }
     }
